@@ -505,3 +505,78 @@ Theorem query_eq_reference_all ndesc vals links T nodes s ia labels K fuel p :
 Proof.
   intros E Hp Hsat Hf. rewrite eval_json_fusion. eapply query_desc_eq_reference_wired; eassumption.
 Qed.
+
+(* ---- the fuel bound in terms of the tree ---------------------------------------------------------------- *)
+Section Heights.
+Context (attrs : list attr) (ia : N -> bool) (vals : list value).
+Local Notation rn := (render_node attrs ia vals).
+Local Notation rns := (render_nodes attrs ia vals).
+Local Notation rv := (render_value attrs ia).
+
+Lemma list_max_le_all {A} (h : A -> nat) l d : (forall x, In x l -> (h x <= d)%nat) -> (list_max (map h l) <= d)%nat.
+Proof.
+  induction l as [|x l IH]; intros H; cbn [map list_max fold_right]; [lia|].
+  pose proof (H x (or_introl eq_refl)). specialize (IH (fun y Hy => H y (or_intror Hy))). unfold list_max in IH. lia.
+Qed.
+
+Lemma vheight_rv : forall k b i, (vheight (rv k b i) <= k + 1)%nat.
+Proof.
+  induction k as [|k IH]; intros b i; cbn [render_value vheight]; [cbn; lia|].
+  rewrite map_map. apply le_n_S. apply list_max_le_all. intros a _. apply IH.
+Qed.
+
+Lemma wheights_in ms w : In w (wnodes_list ms) -> (wheight w <= wheights ms)%nat.
+Proof.
+  induction ms as [|x ms IH]; cbn [wnodes_list In wheights]; [tauto|]. intros [->|H]; [lia|]. specialize (IH H). lia.
+Qed.
+
+Lemma jheight_rn K : forall w, (jheight (rn K w) <= wheight w + K)%nat.
+Proof.
+  assert (Hlist : forall ms d, (forall w, In w (wnodes_list ms) -> (jheight (rn K w) <= wheight w + K)%nat) ->
+                   (wheights ms + K <= d)%nat -> (list_max (map jheight (rns K ms)) <= d)%nat).
+  { intros ms d H Hd. rewrite rns_map, map_map. apply list_max_le_all. intros w Hw.
+    specialize (H w Hw). pose proof (wheights_in ms w Hw). lia. }
+  assert (Hchunks : forall ms nmem nrep d, (list_max (map jheight (rns K ms)) <= d)%nat ->
+            (list_max (map (fun rep => list_max (map jheight rep)) (chunks nmem nrep (rns K ms))) <= d)%nat).
+  { intros ms nmem nrep d H. apply list_max_le_all. intros rep Hrep. apply list_max_le_all. intros x Hx.
+    pose proof (chunks_incl nmem nrep _ rep Hrep x Hx) as Hin.
+    pose proof (in_list_max jheight x _ Hin). lia. }
+  fix IH 1. intros w.
+  destruct w as [id|id ms|id nmem nrep ms|id nmem f ms|i].
+  - cbn. lia.
+  - rewrite rn_seq. cbn [jheight wheight].
+    assert (list_max (map jheight (rns K ms)) <= wheights ms + K)%nat; [|lia]. apply Hlist; [|lia].
+    induction ms as [|x ms IHms]; cbn [wnodes_list In]; [tauto|]. intros w' [<-|Hw']; [apply IH|apply IHms, Hw'].
+  - rewrite rn_fixed. cbn [jheight wheight].
+    assert (list_max (map jheight (rns K ms)) <= wheights ms + K)%nat.
+    { apply Hlist; [|lia].
+      induction ms as [|x ms IHms]; cbn [wnodes_list In]; [tauto|]. intros w' [<-|Hw']; [apply IH|apply IHms, Hw']. }
+    pose proof (Hchunks ms nmem (N.to_nat nrep) _ H). lia.
+  - rewrite rn_delayed. cbn [jheight wheight].
+    assert (list_max (map jheight (rns K ms)) <= wheights ms + K)%nat.
+    { apply Hlist; [|lia].
+      induction ms as [|x ms IHms]; cbn [wnodes_list In]; [tauto|]. intros w' [<-|Hw']; [apply IH|apply IHms, Hw']. }
+    pose proof (Hchunks ms nmem (count_of (nth_error vals (N.to_nat f))) _ H).
+    pose proof (vheight_rv K false f). lia.
+  - cbn [render_node jheight wheight]. pose proof (vheight_rv K false i). lia.
+Qed.
+
+Lemma jheight_root K nodes : (jheight (JSeqN 0 (rns K nodes)) <= wheights nodes + K + 1)%nat.
+Proof.
+  cbn [jheight]. rewrite rns_map, map_map.
+  assert (list_max (map (fun x => jheight (rn K x)) (wnodes_list nodes)) <= wheights nodes + K)%nat; [|lia].
+  apply list_max_le_all. intros w Hw. pose proof (jheight_rn K w). pose proof (wheights_in nodes w Hw). lia.
+Qed.
+
+End Heights.
+
+(* C16 with the fuel bound stated on the tree: 2*(depth of the tree + K + 1) + 3*|path| + 2 *)
+Theorem query_eq_reference_all_tree ndesc vals links T nodes s ia labels K fuel p :
+  wire ndesc vals links T = Ok (nodes, s) -> wf_path (p_comps p) = true -> saturated (x_attrs s) K = true ->
+  (2 * (wheights nodes + K + 1) + 3 * length (p_comps p) + 2 <= fuel)%nat ->
+  process_one_subset (x_attrs s) labels fuel nodes p =
+  eval_json labels (render_nodes (x_attrs s) ia vals K nodes) (p_comps p).
+Proof.
+  intros E Hp Hsat Hf. eapply query_eq_reference_all; try eassumption.
+  pose proof (jheight_root (x_attrs s) ia vals K nodes). lia.
+Qed.
